@@ -1,6 +1,9 @@
 open Base
 open BinNums
+open Doc
 open GenChars
+open GenNs
+open GenStyleRefs
 open XmlLex
 open XmlPrint
 open XmlTree
@@ -50,3 +53,38 @@ let i_xml_parse =
 
 let i_lex =
   lex
+
+(** val coq_RA : qname list **)
+
+let coq_RA =
+  scanned_refattrs
+
+(** val i_used_auto_styles : node list -> node -> node list **)
+
+let i_used_auto_styles =
+  used_auto_styles coq_RA
+
+(** val i_contentxml : nsenv -> odfdoc -> str **)
+
+let i_contentxml =
+  contentxml coq_F coq_RA xml_prologue
+
+(** val i_stylesxml : nsenv -> odfdoc -> str **)
+
+let i_stylesxml =
+  stylesxml coq_F coq_RA xml_prologue
+
+(** val i_metaxml : nsenv -> odfdoc -> odfdoc * str **)
+
+let i_metaxml =
+  metaxml coq_F xml_prologue toolsversion
+
+(** val i_settingsxml : nsenv -> odfdoc -> str **)
+
+let i_settingsxml =
+  settingsxml coq_F xml_prologue
+
+(** val i_flatxml : nsenv -> odfdoc -> odfdoc * str **)
+
+let i_flatxml =
+  flatxml coq_F xml_prologue toolsversion
